@@ -191,11 +191,15 @@ def call(draw, text_mode, ops, stream=None, cut_chars=None, inst_w=None):
             piece = re.escape(stream[at:at + draw(st.integers(1, max(1, W - 1)))])
             c['pats'] = c['pats'][:3] + [{'re': draw(st.sampled_from(['^', r'\A', '^'])) + piece}]
         c['timeout'] = draw(timeouts())
+        if draw(st.integers(0, 24)) == 0:
+            c['pats'] = []          # nothing to look for (run() does this): the call can only end in EOF or TIMEOUT
         c['single'] = (len(c['pats']) == 1 and draw(st.booleans()))
     elif op == 'expect_exact':
         c['pats'] = draw(pattern_list(text_mode, True, stream=stream))
         c['w'] = draw(windows())
         c['timeout'] = draw(timeouts())
+        if draw(st.integers(0, 24)) == 0:
+            c['pats'] = []
         c['single'] = (len(c['pats']) == 1 and draw(st.booleans()))
     elif op == 'read':
         c['n'] = draw(st.sampled_from([-1, 0, 1, 2, 3, 5, 50]))
